@@ -77,6 +77,16 @@ func (c *pathCtx) now() value {
 	if prev == nil {
 		prev = lo
 	}
+	if c.model != nil {
+		func() {
+			defer func() {
+				if recover() != nil {
+					c.model = nil
+				}
+			}()
+			c.model[d.Name] = prev.eval(c.model)
+		}()
+	}
 	c.addPC(mkAnd(mkLe(prev, d.term), mkLe(d.term, mkInt(nsPerSec-1))))
 	c.lastNow = d.term
 	return mkTimeVal(mkAdd(d.term, mkInt(baseSec*nsPerSec)))
